@@ -803,6 +803,14 @@ func (c *coreGen) genFraud(s *coreSnap, ri int, members []int) string {
 		case 3:
 			h = ra.States[n-1].Start + ra.States[n-1].Num + uint64(1+g.Intn(3))
 			c.r.Hit("fork-beyond-latest")
+			// with pending packets above the latest height: request a height that covers some of them
+			for _, pk := range s.Pk {
+				if pk.Ra == ri && pk.Ph >= ra.States[n-1].Start+ra.States[n-1].Num && g.Chance(60) {
+					h = pk.Ph + uint64(1+g.Intn(2))
+					c.r.Hit("fork-beyond-latest-covering-a-pending-packet")
+					break
+				}
+			}
 		case 4, 5:
 			h = st.Start + uint64(g.Intn(int(st.Num)+1))
 			c.r.Hit("fork-inside-state")
